@@ -901,7 +901,10 @@ def clean_cases(ctx, volume=1):
     plates3 = ["i", "j", "k"]
     shapes3 = [sh for nf in (1, 2, 3) for sh in canonical_plate_graphs(nf)]
     if thorough:
-        shapes3 += canonical_plate_graphs(4)
+        # a seed-rotated third of the 33,963 four-factor shapes per run (all of them over seeds 0,1,2)
+        four = canonical_plate_graphs(4)
+        shapes3 += [sh for k, sh in enumerate(four) if k % 3 == ctx.seed % 3]
+        ctx.count("plate-structures-3:four-factor-third", 1)
     else:
         for _ in range(800 * volume):      # 4 factors: sampled in the quick tier
             shapes3.append([tuple(n for b, n in enumerate(NAMES6) if m >> b & 1)
@@ -909,7 +912,7 @@ def clean_cases(ctx, volume=1):
     for si, shape in enumerate(shapes3):
         names = sorted(set(n for f in shape for n in f))
         elims = [list(names)]
-        if names and (thorough or rng.random() < 0.5):
+        if names and rng.random() < ((0.25 if thorough else 0.5) if len(shape) >= 4 else (1.0 if thorough else 0.5)):
             elims.append(gen_elim(rng, names))
         for elim in elims:
             sizes = fit_sizes(rng, shape, elim, plates3, cap)
@@ -923,7 +926,7 @@ def clean_cases(ctx, volume=1):
                 ctx.count("plate-structures-3:creates-new-ordinal")
             yield variants_for(rng, g, plates3, elim, full=False)
     # --- random larger ---------------------------------------------------------------------
-    n = (700 if not thorough else 15000) * volume
+    n = (700 if not thorough else 3500) * volume
     made = 0
     while made < n:
         factors, sizes, plates = gen_random_graph(rng, ctx.tier)
@@ -936,7 +939,7 @@ def clean_cases(ctx, volume=1):
 
 
 def correspond(ctx):
-    ctx.rule = ("(0) EVERY plate structure: all multisets of <= 3 factors (thorough: <= 4; quick samples 800 with 4) over "
+    ctx.rule = ("(0) EVERY plate structure: all multisets of <= 3 factors (thorough: plus a seed-rotated third of the 33,963 four-factor shapes; quick samples 800 with 4) over "
                 "3 variables and 3 plates up to renaming (3038 / 37001 shapes), full elimination (+ a random eliminate set), "
                 "sizes fitted under the unrolling cap, six semirings in rotation; "
                 "(1) every multiset of <= 3 factors over 3 variables and 2 plates up to renaming (1018 shapes), sizes 1-2, "
